@@ -14,7 +14,7 @@ NOT_PROVED = ["global preservation of the number of 8-components by the parallel
               "images <=3x5 and on random images, not a theorem)",
               "Euler-Poincare (V-E+F = components - holes) is classical and not proved here; the quad sum is compared with an "
               "independent component/hole count on every case",
-              "hull containment of every foreground pixel is checked with exact orientation tests, not proved"]
+              "hull: containment is a theorem per monotone chain (every point lies, in its slab, right of or on the chain edge: HullContain.v); that graham() assembles the two chains into one polygon is checked on every case with exact orientation tests"]
 BUDGET_S = {"quick": 100, "thorough": 1500}
 
 
